@@ -106,7 +106,21 @@ fn gen_op(rng: &mut StdRng, d: &Driver, profile: &str) -> Value {
             0..=15 if !crowded && !many_issued => {
                 return json!({"op": "insert", "w": w, "order": pick_order(rng), "vals": vals(rng)});
             }
-            16..=27 if !crowded && !many_issued => {
+            16..=17 if !crowded && !many_issued => {
+                // the same through the entities! macro: (components; n) and a list of tuples
+                let orders: [&[u8]; 5] = [&[], &[2], &[3, 2], &[4, 1, 0], &[8, 2]];
+                let o = orders[rng.gen_range(0..5)];
+                if rng.gen_bool(0.5) {
+                    let n = rng.gen_range(0..5);
+                    let v = vals(rng);
+                    let rows: Vec<Vec<u32>> = (0..n).map(|_| v.clone()).collect();
+                    return json!({"op": "extend", "w": w, "order": o, "rows": rows, "extra": 0, "form": "clone"});
+                }
+                let n = rng.gen_range(1..4);
+                let rows: Vec<Vec<u32>> = (0..n).map(|_| vals(rng)).collect();
+                return json!({"op": "extend", "w": w, "order": o, "rows": rows, "extra": 0, "form": "tuples"});
+            }
+            18..=27 if !crowded && !many_issued => {
                 // batch sizes 0..6, biased towards the size of the free list -1, =, +1
                 let free = n_issued.saturating_sub(n_live);
                 let n = match rng.gen_range(0..6) {
@@ -385,6 +399,8 @@ fn main() {
                 json!({"op": "extend", "w": 1, "order": [2], "rows": [], "extra": 0}),
                 json!({"op": "extend", "w": 1, "order": [2], "rows": [v, v], "extra": 1}),
                 json!({"op": "extend", "w": 1, "order": [2, 3], "rows": [v], "extra": 0}),
+                json!({"op": "extend", "w": 1, "order": [], "rows": [v, v], "extra": 0, "form": "clone"}),
+                json!({"op": "extend", "w": 1, "order": [3, 2], "rows": [v, v], "extra": 0, "form": "tuples"}),
                 json!({"op": "remove", "w": 1, "e": {"k": 1}}),
                 json!({"op": "remove", "w": 1, "e": {"k": 2}}),
                 json!({"op": "remove", "w": 1, "e": {"k": 3}}),
